@@ -66,10 +66,14 @@ func Time(t time.Time) string {
 	sec := t.Unix() - zeroUnix
 	ns := t.Nanosecond()
 	var s string
-	if sec == 0 {
+	switch {
+	case sec == 0:
 		s = strconv.Itoa(ns)
-	} else {
+	case sec > 0:
 		s = fmt.Sprintf("%d%09d", sec, ns)
+	default: // before Go's zero time: exact arithmetic
+		n := new(big.Int).Mul(big.NewInt(sec), billion)
+		s = n.Add(n, big.NewInt(int64(ns))).String()
 	}
 	if _, off := t.Zone(); off != 0 {
 		s += "@" + strconv.Itoa(off)
